@@ -18,7 +18,10 @@ Numerals == {
   Nm(FALSE, <<1>>, -130, <<49,69,45,49,51,48>>), Nm(FALSE, <<9,9>>, 124, <<57,46,57,69,43,49,50,53>>) }
 Scalars == { Str(<<>>), Str(<<97>>), Str(<<97, 46, 98, 32, 34, 195, 169>>), Bin(<<>>), Bin(<<0, 255, 10>>), Bool(TRUE), Bool(FALSE), NullV } \cup Numerals
 Sets == { Mk("SS", <<<<97>>>>), Mk("SS", <<<<98>>, <<>>, <<97>>>>), Mk("NS", <<Num(1).n>>), Mk("NS", <<Num(2).n, [neg |-> TRUE, d |-> <<1,5>>, e |-> -1], Num(10).n>>),
-          Mk("BS", <<<<1>>>>), Mk("BS", <<<<2>>, <<>>, <<1, 0>>>>) }
+          Mk("BS", <<<<1>>>>), Mk("BS", <<<<2>>, <<>>, <<1, 0>>>>),
+          \* members that differ only beyond what a float64 can tell apart
+          Mk("NS", <<[neg |-> FALSE, d |-> <<9,0,0,7,1,9,9,2,5,4,7,4,0,9,9,2>>, e |-> 0], [neg |-> FALSE, d |-> <<9,0,0,7,1,9,9,2,5,4,7,4,0,9,9,3>>, e |-> 0]>>),
+          Mk("NS", <<[neg |-> FALSE, d |-> <<1>>, e |-> -1], [neg |-> FALSE, d |-> <<1,0,0,0,0,0,0,0,0,0,0,0,0,0,0,0,0,0,0,1>>, e |-> -20]>>) }
 D0 == Scalars \cup Sets
 Wrap(S) == { Mk("L", <<>>), Mk("M", <<>>) } \cup { Mk("L", <<v>>) : v \in S } \cup { Mk("M", [k |-> v]) : v \in S }
            \cup { Mk("L", <<Str(<<97>>), Num(1), Bool(FALSE), NullV>>), Mk("M", [a |-> Str(<<>>), b |-> NullV, c |-> Mk("L", <<>>), d |-> Mk("M", <<>>)]) }
@@ -33,7 +36,10 @@ Trace(v) == << AddTable("c1", T1, "h", ""), Put(T1, Key @@ [val |-> v]), Get(T1,
                QueryOp("c1", T1, NoIndex, HK, NoFilter, <<>>, One(":h", S1(107)), TRUE),
                [op |-> "BatchGet", c |-> "c1", reqs |-> <<[t |-> T1, keys |-> <<Key>>]>>],
                \* overwritten by an item with as many attributes under another name: nothing of the old value may survive
-               Put(T1, Key @@ [other |-> v]), Get(T1, Key), Put(T1, Key @@ [val |-> Str(<<122>>)]), Get(T1, Key) >>
+               Put(T1, Key @@ [other |-> v]), Get(T1, Key), Put(T1, Key @@ [val |-> Str(<<122>>)]), Get(T1, Key),
+               \* and through paged reads: every item of every page is whole
+               Put(T1, [h |-> S1(108)] @@ [val |-> v, w |-> Num(1)]), Put(T1, [h |-> S1(109)] @@ [val |-> v]),
+               WalkOp(ScanOp("c1", T1, NoIndex, NoFilter, <<>>, <<>>), 1, FALSE), WalkOp(ScanOp("c1", T1, NoIndex, NoFilter, <<>>, <<>>), 2, FALSE) >>
 ASSUME \A v \in Universe : PrintT(ToJson([kind |-> "trace", ops |-> Trace(v)]))
 ASSUME PrintT(ToJson([kind |-> "count", n |-> Cardinality(Universe)]))
 SetupDef == <<>>
